@@ -196,11 +196,33 @@ func c03Canon(schemas ast.Schemas, builders ast.Builders) (ast.Schemas, ast.Buil
 	return s, b
 }
 
-func c03RunPipeline(cfg, mode string) *c03Obs {
+// c03Params parses `k1:v1,k2:v2` (extra parameters handed to the public option
+// codegen.Parameters, as `cog generate --parameters k1=v1,k2=v2` does)
+func c03Params(spec string) map[string]string {
+	if spec == "" {
+		return nil
+	}
+	out := map[string]string{}
+	for _, kv := range strings.Split(spec, ",") {
+		if k, v, ok := strings.Cut(kv, ":"); ok {
+			out[k] = v
+		}
+	}
+	return out
+}
+
+func c03RunPipeline(cfg, mode string, params map[string]string) *c03Obs {
 	obs := newObs()
 	canon := strings.HasSuffix(mode, "+canon")
 	mode = strings.TrimSuffix(mode, "+canon")
-	pipeline, err := codegen.PipelineFromFile(cfg, codegen.Parameters(nil))
+	var extra map[string]string
+	if params != nil {
+		extra = map[string]string{}
+		for k, v := range params {
+			extra[k] = v
+		}
+	}
+	pipeline, err := codegen.PipelineFromFile(cfg, codegen.Parameters(extra))
 	if err != nil {
 		obs.err = "config: " + err.Error()
 		return obs
@@ -209,6 +231,8 @@ func c03RunPipeline(cfg, mode string) *c03Obs {
 	switch {
 	case mode == "config":
 		obs.put("output.directory", pipeline.Output.Directory)
+		obs.put("output.repository_templates", pipeline.Output.RepositoryTemplates)
+		obs.put("transformations", c03JSON(pipeline.Transforms))
 		obs.put("output.templates_data", c03JSON(pipeline.Output.TemplatesData))
 		for i, in := range pipeline.Inputs {
 			obs.put(fmt.Sprintf("inputs[%d]", i), c03JSON(in))
@@ -283,7 +307,7 @@ func init() {
 		}
 		if show := args["show"]; show != "" {
 			// debugging aid: print the observed documents whose name contains `show`
-			obs := c03RunPipeline(cfg, mode)
+			obs := c03RunPipeline(cfg, mode, c03Params(args["params"]))
 			for _, n := range obs.names {
 				if strings.Contains(n, show) {
 					fmt.Fprintf(out, "-\t=== %s\t-\n", n)
@@ -294,7 +318,7 @@ func init() {
 			}
 			return nil
 		}
-		c03Repeat(out, name, site, argInt(args, "n", 10), func() *c03Obs { return c03RunPipeline(cfg, mode) })
+		c03Repeat(out, name, site, argInt(args, "n", 10), func() *c03Obs { return c03RunPipeline(cfg, mode, c03Params(args["params"])) })
 		return nil
 	})
 }
